@@ -27,6 +27,8 @@ def rname(t):
         return f'SUBFEATURE|{BASE[t[1]]}|{BASE[t[2]]}-{t[3]}&{t[4]}'
     if t[0] == 'AND':
         return rname(t[1]) + ' AND ' + rname(t[2])
+    if t[0] == 'TR':
+        return BASE[t[1]] + t[2]
     if t[0] == 'CONTROL':
         return CONTROLS[int(t[1]) - 1] if t[1].isdigit() else 'CONTROL-' + t[1]
     raise ValueError(t)
@@ -45,6 +47,14 @@ def canon(p):
     return [seen.setdefault(repr(v), len(seen)) for v in p]
 
 
+TRNAMES = ['_tr_sqrt', '_tr_log(x+1)', '_tr_sqrt(abs(x))', '_tr_log(abs(x)+1)']       # the 'minimal' preset
+CELL = {'q3': '"3"', 'q2.5': '"2.5"'}                                                    # quoted numeric cells (kept abstract in the spec)
+
+
+def has_tr(t):
+    return isinstance(t, tuple) and len(t) > 0 and (t[0] == 'TR' or any(has_tr(x) for x in t[1:]))
+
+
 FOCUS = '{{"M", "A"}, {"A", "B", "C"}, {"B"}, {"M", "A", "B", "C"}}'
 
 
@@ -53,16 +63,17 @@ def run_config(V, rng, tier, run_label, MV, AV, BV, CV, MAPS, flagsets):
     wd = E.workdir('c11')
     try:
         mc = E.write_mc(wd, 'FeatureConstruction', {'MC_Flags': '{' + ', '.join(flagsets) + '}', 'MC_SubMaps': MAPS,
-                                                     'MC_Focus': FOCUS if run_label == 'focus' else '{{"M", "A", "B", "C"}}'})
+                                                     'MC_Focus': FOCUS if run_label == 'focus' else ('{{"M", "A", "B", "C"}, {"A", "B"}}' if run_label == 'transform' else '{{"M", "A", "B", "C"}}'),
+                                                     'MC_Tr': '<<' + ', '.join(f'"{x}"' for x in TRNAMES) + '>>'})
         C = {'NRows': 3, 'MVals': MV, 'AVals': AV, 'BVals': BV, 'CVals': CV, 'SubMaps': '<- MC_SubMaps', 'FocusSets': '<- MC_Focus',
-             'FlagSets': '<- MC_Flags', 'MissingTokens': '{""}', 'NControls': 9}
+             'FlagSets': '<- MC_Flags', 'MissingTokens': '{""}', 'NControls': 9, 'TrNames': '<- MC_Tr'}
         cfg = E.write_cfg(os.path.join(wd, 'mc.cfg'), constants=C, invariants=INVS + ['FocusKeepsOrder', 'Emit'])
         res = E.run_tlc(mc, cfg, timeout=2400, coverage=(q and run_label == 'plain'))
         E.require_ok(res, 'FeatureConstruction/' + run_label)
         V.add_tlc(res, 'FeatureConstruction/' + run_label)
         V.tlc_violation(res, 'FeatureConstruction/' + run_label)
         if res.coverage:
-            for a in ('Expand', 'Sub', 'Interact', 'Noise'):
+            for a in ('Transform', 'Expand', 'Sub', 'Interact', 'Noise'):
                 if res.coverage.get(a, (0, 0))[0] == 0:
                     raise E.MachineryError(f'action {a} never taken')
         cases = [(set(t[1]), t[3], t[4], [tuple(e) for e in t[2]], set(t[5]), t[6]) for t in E.extract_tuples(res.stdout, 'CASE')]
@@ -76,21 +87,23 @@ def run_config(V, rng, tier, run_label, MV, AV, BV, CV, MAPS, flagsets):
         # label position varies; the spec's frame lists it first
         order = cols0[1:]
         order.insert(rng.randrange(len(order) + 1), 'label')
-        data = {rname(c[0]): list(c[1]) for c in raw}
+        data = {rname(c[0]): [CELL.get(v, v) for v in c[1]] for c in raw}
         nrows = len(raw[0][1])
         rows = [[data[c][r] for c in order] for r in range(nrows)]
         mapping = ';'.join(BASE[a] + ('->' if op == 'one' else '<->') + BASE[b] for op, a, b in submap)
         items.append({'columns': order, 'rows': rows,
                       'kept': [rname(c[0]) for c in f0],
+                      'numeric': ['fc'] if 'transform' in flags and 'C' in focus else [],
                       'args': {'heuristic': 'MI-numba-randomized', 'label_column': 'label',
                                'feature_set_focus': (None if focus == {'M', 'A', 'B', 'C'} else ','.join(sorted(BASE[x] for x in focus))),
+                               'transformers': 'minimal' if 'transform' in flags and 'C' in focus else 'none',
                                'explode_multivalue_features': 'm' if 'multi' in flags else 'False',
                                'subfeature_mapping': mapping or 'False', 'interaction_order': 2 if 'interact' in flags else 1,
                                'include_noise_baseline_features': 'True' if 'noise' in flags else 'False', 'combination_number_upper_bound': 10 ** 6}})
     chunk = 400
     jobs = [{'op': 'batch_features', 'items': items[i:i + chunk]} for i in range(0, len(items), chunk)]
     got = PC.pipe_eval(jobs, modules=['pipe_ops'])
-    nontriv = drift = 0
+    nontriv = drift = notr = 0
     for ji, (job, r) in enumerate(zip(jobs, got)):
         if r is None or 'ok' not in r:
             V.violation(f'raises:chunk{ji}', f'compute_batch_ranking failed: {PC.failure_text(r)}', job['items'][0])
@@ -111,7 +124,11 @@ def run_config(V, rng, tier, run_label, MV, AV, BV, CV, MAPS, flagsets):
                 V.violation('one-value-per-row:' + key, f'a constructed column does not have exactly one value per row (columns {ob["columns"]})', item)
                 continue
             expected = {}
+            tr_names = set()
             for name_t, vals in f[len(f0):]:
+                if has_tr(name_t):
+                    tr_names.add(rname(name_t))       # transformer columns (and interactions over them): any subset may be kept, values are Transformers.tla's business
+                    continue
                 expected[rname(name_t)] = (name_t[0], vals)
             newcols = {c_: ob['values'][c_] for c_ in ob['columns'][n0:]}
 
@@ -147,11 +164,17 @@ def run_config(V, rng, tier, run_label, MV, AV, BV, CV, MAPS, flagsets):
                 shown = newcols.get(nm)
                 V.violation(f'rule:{kind}:{key}', f'column {nm!r} = {shown}; the stated rule gives {[rval(v) for v in vals] if kind != "AND" else canon(vals)} (no constructed column satisfies it)', item)
                 break
-            extra = [c_ for c_ in ob['columns'][n0:] if c_ not in expected]
+            extra = [c_ for c_ in ob['columns'][n0:] if c_ not in expected and c_ not in tr_names]
+            if 'transform' in flags and 'C' in focus and not any(c_ in tr_names for c_ in ob['columns'][n0:]):
+                notr += 1
             if extra:
                 drift += 1
     V.count(evaluations=len(cases), nontrivial=nontriv, traces=len(cases))
     V.notes['drift_extra_columns_' + run_label] = drift
+    if run_label == 'transform':
+        V.notes['transform_cases_without_kept_transformer_column'] = notr
+        if notr == len(cases):
+            raise E.MachineryError('the transformer step never appended a column')
     mid = len(items) // 2
     V.add_sample({'item': items[mid], 'constructed_columns': (got[mid // chunk].get('ok') or [{}])[mid % chunk].get('columns')})
 
@@ -160,7 +183,7 @@ def main():
     tier, seed, replay = E.tier_seed()
     V = E.Verdict(PID, tier, seed)
     rng = random.Random(seed * 256203221 + 11)
-    V.coverage['rule'] = ('TLC: FeatureConstruction.tla - every frame (label + multi-value column over {"", a, b, "a,b", "b-a"} and punctuated tokens + three categorical columns, 3 rows) x flag subsets x sub-feature mapping lists (several pairs sharing a seed column with different selectors), '
+    V.coverage['rule'] = ('TLC: FeatureConstruction.tla - every frame (label + a numeric column with blank and quoted cells for the transformer step + multi-value column over {"", a, b, "a,b", "b-a"} and punctuated tokens + three categorical columns, 3 rows) x flag subsets x sub-feature mapping lists (several pairs sharing a seed column with different selectors), '
                           'one action per constructor in pipeline order; Additive, OneValuePerRow, MultiValueRule, OneSidedRule, TwoSidedRule, TargetControlIsLabel.  Every state is '
                           'replayed through the real compute_batch_ranking (scoring stage replaced by a capture of the constructed frame) and the constructed frame compared: '
                           'originals unchanged as prefix, every specified column present with the specified values, interaction columns by partition, control columns by name/shape. '
@@ -173,15 +196,17 @@ def main():
                   '<<<<"one","A","C">>>>, <<<<"two","C","B">>, <<"one","C","A">>>>}')
     full = ['{}', '{"multi"}', '{"sub"}', '{"interact"}', '{"noise"}', '{"multi","sub","interact","noise"}', '{"multi","interact"}', '{"sub","noise"}', '{"sub","interact"}']
     if q:
-        runs = [('plain', '{"", "a", "a,b", "b-a"}', '{"a","b"}', '{"a","b"}', '{"x"}', MAPS_OLD, ['{"multi","sub","interact","noise"}', '{"multi"}', '{"sub"}']),
+        runs = [('plain', '{"", "a", "a,b", "b-a"}', '{"a","b"}', '{"a","b"}', '{"x"}', MAPS_OLD, ['{"multi","sub","interact","noise"}', '{"multi"}']),
                 ('punctuated-tokens', '{"a.b", "axb", "c+", "c", "c+,c", "a|b", "a*"}', '{"a"}', '{"a","b"}', '{"x"}', MAPS_OLD, ['{"multi"}']),
                 ('mappings', '{"a"}', '{"a","b"}', '{"a","b"}', '{"x","y"}', MAPS_MULTI, ['{"sub"}']),
-                ('focus', '{"a", "a,b"}', '{"a","b"}', '{"a","b"}', '{"x"}', MAPS_OLD, ['{"interact"}', '{}'])]
+                ('focus', '{"a", "a,b"}', '{"a","b"}', '{"a","b"}', '{"x"}', MAPS_OLD, ['{"interact"}', '{}']),
+                ('transform', '{"a"}', '{"a","b"}', '{"a"}', '{"1", "", "q3", "4"}', MAPS_OLD, ['{"transform"}', '{"transform","interact"}'])]
     else:
         runs = [('plain', '{"", "a", "b", "a,b", "b-a", "c-"}', '{"a","b"}', '{"a","b"}', '{"x"}', MAPS_OLD, full),
                 ('punctuated-tokens', '{"a.b", "axb", "c+", "c", "c+,c", "a|b", "a*", "(a", "aa", "a.b-axb", "a"}', '{"a"}', '{"a","b"}', '{"x"}', MAPS_OLD, ['{"multi"}', '{"multi","interact"}']),
                 ('mappings', '{"a", "a,b"}', '{"a","b"}', '{"a","b"}', '{"x","y"}', MAPS_MULTI, ['{"sub"}', '{"sub","multi","interact"}']),
-                ('focus', '{"a", "a,b", "b"}', '{"a","b"}', '{"a","b"}', '{"x","y"}', MAPS_OLD, ['{"interact"}', '{}', '{"noise"}'])]
+                ('focus', '{"a", "a,b", "b"}', '{"a","b"}', '{"a","b"}', '{"x","y"}', MAPS_OLD, ['{"interact"}', '{}', '{"noise"}']),
+                ('transform', '{"a", "a,b"}', '{"a","b"}', '{"a"}', '{"1", "", "q3", "4", "q2.5", "-2"}', MAPS_OLD, ['{"transform"}', '{"transform","interact"}', '{"transform","multi","sub","noise"}'])]
     for run_label, MV, AV, BV, CV, MAPS, flagsets in runs:
         run_config(V, rng, tier, run_label, MV, AV, BV, CV, MAPS, flagsets)
     V.coverage['exhaustive'] = True
